@@ -112,6 +112,7 @@ class State:
         self.globmap = {}   # global name -> rid
         self.extra = {}     # scratch for summaries (copied shallowly)
         self.owned = set()  # region ids this state may mutate in place (copy-on-write otherwise)
+        self.pinned = {}    # term id -> concrete int value implied by the path condition (x == const)
 
     def wreg(self, rid):
         """writable view of a region (copy on first write after a fork)"""
@@ -126,6 +127,7 @@ class State:
         s.regions = dict(self.regions)
         s.owned = set()
         self.owned = set()
+        s.pinned = dict(self.pinned)
         s.pc = list(self.pc)
         s.pcset = set(self.pcset)
         s.ub = list(self.ub)
@@ -152,6 +154,8 @@ class State:
             return True
         self.pc.append(c)
         self.pcset.add(c.id)
+        if c.op == 'icmp' and c.args[0] == 'eq' and tm.is_ic(c.args[2]) and isinstance(c.args[1], T):
+            self.pinned[c.args[1].id] = c.args[2]
         return True
 
 
@@ -680,7 +684,15 @@ class Executor:
         done = []
         while work:
             s = work.pop()
-            forks = self.run_state(s)
+            try:
+                forks = self.run_state(s)
+            except Unsupported as e:
+                if not s.ub:
+                    raise
+                # something unsupported after undefined behaviour was already recorded on this path (e.g. garbage read
+                # through an end() iterator): the path ends here, the others go on
+                s.status = 'unsupported-after-ub: %s' % str(e)[:80]
+                forks = [s]
             for x in forks:
                 if x.status is not None:
                     done.append(x)
@@ -755,6 +767,10 @@ class Executor:
         if c is UNDEF or not isinstance(c, T):
             raise Unsupported('branch on %r' % (c,))
         nc = tm.negate(c)
+        if c.op == 'icmp' and isinstance(c.args[1], T) and c.args[1].id in st.pinned and tm.is_ic(c.args[2]):
+            v = mk('icmp', 'i1', c.args[0], st.pinned[c.args[1].id], c.args[2])
+            (on_true if v.args[0] else on_false)(st)
+            return None
         if c.id in st.pcset:
             on_true(st)
             return None
